@@ -451,6 +451,12 @@ class Compiler(object):
                 if resolved_member['type'] == 'OCTET STRING':
                     self.pre_process_default_value_octet_string(member)
 
+                if resolved_member['type'] == 'BOOLEAN':
+                    # Not converted by the parser if the member type
+                    # is a type reference.
+                    if member['default'] in ['TRUE', 'FALSE']:
+                        member['default'] = (member['default'] == 'TRUE')
+
     def pre_process_default_value_bit_string(self, member, resolved_member):
         default = member['default']
 
